@@ -45,7 +45,8 @@ def floors(tier):
           'claimed_velocity_slide_on_rotated_body': 20 * k,
           'claimed_velocity_hinge': 12 * k, 'claimed_velocity_free': 40 * k,
           'claimed_velocity_child_of_moving_parent': 20 * k,
-          'unclaimed_link_velocity_compared': 300 * k}
+          'unclaimed_link_velocity_compared': 300 * k,
+          'deep_chain_models': 8 * k}
 
 
 def run(job, mon):
@@ -59,6 +60,10 @@ def run(job, mon):
     if job['profile'] == 'single_origin':
       spec = gen.gen_model(rng, single_origin=True,
                            stack_kinds=['any', 'slide', 'hinge'][c % 3])
+    elif c % 5 == 4:
+      # deep chains: every link below 4-5 moving ancestors
+      spec = gen.gen_model(rng, n_links=int(rng.integers(5, 7)), chain=True)
+      mon.count('deep_chain_models')
     else:
       spec = gen.gen_model(rng)
     xml = gen.to_xml(spec)
